@@ -37,13 +37,17 @@ def main():
         # 4-5: correspondence + oracle
         try:
             mod.run(ctx)
-        except Exception:
+        except (KeyboardInterrupt, SystemExit):
+            raise
+        except BaseException:      # asyncio.CancelledError and friends are not Exceptions
             tb = traceback.format_exc()
             sys.stderr.write(tb)
             ctx.fail("crash", "a step of the check raised against this tree; the property is not shown to hold",
                      traceback=tb[-3000:], no_input=True, theorem_or_correspondence="check did not complete")
         return mod.finish(ctx)
-    except Exception:
+    except (KeyboardInterrupt, SystemExit):
+        raise
+    except BaseException:
         tb = traceback.format_exc()
         sys.stderr.write(tb)
         # the harness could not complete against this tree: the property is not shown to hold
